@@ -214,6 +214,46 @@ func runC19(cfg *config) *Report {
 		}
 	}
 	flush()
+	// one record larger than any default the mode might apply to the scanner (an image of 1.2 MiB), read with a buffer
+	// the caller made large enough: accepted with the mode off, it must be accepted with it on (judged on the two real
+	// reads alone)
+	if big, err := genFile(r, genOpts{maxCL: 1, maxBundles: 1, maxItems: 1, mutateP: 0, kind: 1}); err == nil {
+		grown := false
+		for _, b := range big.CashLetters[0].Bundles {
+			for _, cd := range b.Checks {
+				if len(cd.ImageViewData) == 0 {
+					cd.AddImageViewDetail(baseImageViewDetail())
+					cd.AddImageViewData(mkIVData(r, genOpts{}))
+					cd.AddImageViewAnalysis(baseImageViewAnalysis())
+				}
+				if !grown {
+					cd.ImageViewData[0].ImageData = bytes.Repeat([]byte("IMAGE-"), 200*1024)
+					cd.ImageViewData[0].LengthImageData = fmt.Sprintf("%07d", len(cd.ImageViewData[0].ImageData))
+					grown = true
+				}
+			}
+		}
+		if grown && big.Create() == nil {
+			for _, e := range []encCfg{{true, false}, {true, true}} {
+				out, werr, _ := realWrite(big, e)
+				if werr != nil {
+					continue
+				}
+				setFRB(false)
+				f0, e0, _ := realRead(out, e, 1<<22)
+				setFRB(true)
+				f1, e1, _ := realRead(out, e, 1<<22)
+				setFRB(false)
+				rep.Evaluations++
+				rep.count("large-record:" + e.String())
+				off, on := canonErr(e0)+" # "+exportedOnly(dumpFile(&f0)), canonErr(e1)+" # "+exportedOnly(dumpFile(&f1))
+				if strings.HasPrefix(off, "ok") && on != off {
+					rep.violate(Violation{Key: "C19:mode-on-rejected:large-record:" + e.String(), What: "a file holding a record of 1.2 MiB, read with a 4 MiB scanner buffer, is accepted with FRB compatibility mode off and not with it on: " + on[:min(120, len(on))],
+						Replay: map[string]any{"enc": e.String(), "record_bytes": 200 * 1024 * 6, "buffer": 1 << 22, "mode_on": on[:min(200, len(on))]}})
+				}
+			}
+		}
+	}
 	_ = icl.NewFile
 	return rep
 }
